@@ -282,6 +282,12 @@ Step ==
      \* into it races with the same store made for another arena on another thread
      /\ Chk("C20", "SharedEmptyChunkNeverWritten",
             \A k \in 1..Len(e.stores) : e.stores[k][2] = 0, e.stores)
+     \* ---- arena-level view of collection programs (API hooks) ------------------
+     \* Vec / String hand the arena exactly the blocks they got from it: every dealloc / grow / shrink they
+     \* issue names a live block with its own size (otherwise neighbours get disturbed sooner or later)
+     /\ Chk(IF e.tag = "str" THEN "C14" ELSE "C13", "CollectionsHonourTheArenaContract",
+            (e.tag \in {"coll", "collx", "str"} /\ e.op \in {"deallocate", "grow", "shrink"}) => e.blk >= 0,
+            <<e.op, e.ptr, e.len, e.oalign>>)
      \* ---------------------------------------------------------------------
      /\ held' = heldA
      /\ live' = liveA
